@@ -67,11 +67,15 @@ type c10Spec struct {
 	Store    bool     `json:"store"`
 	Sessions int      `json:"sessions"`
 	Reqs     []c10Req `json:"reqs"`
-	BgNotes  []int    `json:"bg_notes_ms"`         // instants at which every session gets an out-of-band notification
-	CaseIDs  bool     `json:"case_ids,omitempty"`  // ServerOptions.GetSessionID issues ids that differ from one another only in letter case
-	Proto    string   `json:"proto,omitempty"`     // protocol version every session negotiates and names in Mcp-Protocol-Version ("": 2025-06-18)
-	InitNote bool     `json:"init_note,omitempty"` // a receiving middleware reports progress with the context of the initialize request (stateless: one initialize POST per session index)
-	Real     bool     `json:"real,omitempty"`      // outside the bubble: a real net/http server on a loopback socket and a real http.Client (wall-clock milliseconds; only the rules that do not depend on time are decided)
+	BgNotes  []int    `json:"bg_notes_ms"`        // instants at which every session gets an out-of-band notification
+	CaseIDs  bool     `json:"case_ids,omitempty"` // ServerOptions.GetSessionID issues ids that differ from one another only in letter case
+	Proto    string   `json:"proto,omitempty"`    // protocol version every session negotiates and names in Mcp-Protocol-Version ("": 2025-06-18)
+	// ReuseSID (stateful, event store): the application's GetSessionID hands the first session's id out again once
+	// every session has been terminated (one stable id per user, one live session at a time); the successor opens a
+	// fresh standalone stream: nothing of its predecessor's may arrive there
+	ReuseSID bool `json:"reuse_sid,omitempty"`
+	InitNote bool `json:"init_note,omitempty"` // a receiving middleware reports progress with the context of the initialize request (stateless: one initialize POST per session index)
+	Real     bool `json:"real,omitempty"`      // outside the bubble: a real net/http server on a loopback socket and a real http.Client (wall-clock milliseconds; only the rules that do not depend on time are decided)
 }
 
 func genC10(r *vh.Rand) c10Spec {
@@ -130,6 +134,7 @@ func genC10(r *vh.Rand) c10Spec {
 	// Later dimensions, drawn after everything above so that the older members of a case stay what they were.
 	s.Proto = r.Choose("", "", "2025-11-25", "2025-03-26", "2025-03-26")
 	s.InitNote = r.Chance(1, 4)
+	s.ReuseSID = strings.HasPrefix(s.Mode, "stateful") && s.Store && !s.CaseIDs && !s.Real && r.Chance(1, 3)
 	for i := range s.Reqs {
 		s.Reqs[i].StrID = r.Chance(1, 5) // of two requests sharing a number, one may now carry it as a string: no longer the same id
 	}
@@ -259,6 +264,16 @@ func runC10(c *vh.Case, spec c10Spec) {
 			return strings.ToLower(base)
 		}
 	}
+	if spec.ReuseSID {
+		var idn atomic.Int64
+		sopts.GetSessionID = func() string {
+			n := idn.Add(1)
+			if int(n) > spec.Sessions {
+				n = 1 // the first session's id again
+			}
+			return fmt.Sprintf("stable-id-%d", n)
+		}
+	}
 	server := mcp.NewServer(&mcp.Implementation{Name: "s", Version: "1"}, sopts)
 	server.AddResource(&mcp.Resource{URI: "file:///shared", Name: "shared"}, func(context.Context, *mcp.ReadResourceRequest) (*mcp.ReadResourceResult, error) {
 		return &mcp.ReadResourceResult{}, nil
@@ -267,7 +282,7 @@ func runC10(c *vh.Case, spec c10Spec) {
 	if spec.InitNote {
 		server.AddReceivingMiddleware(func(next mcp.MethodHandler) mcp.MethodHandler {
 			return func(ctx context.Context, method string, req mcp.Request) (mcp.Result, error) {
-				if ss, ok := req.GetSession().(*mcp.ServerSession); ok && method == "initialize" {
+				if ss, ok := req.GetSession().(*mcp.ServerSession); ok && method == "initialize" && int(initOf.Load()) < spec.Sessions {
 					// issued while handling the initialize request, with its context
 					ss.NotifyProgress(ctx, &mcp.ProgressNotificationParams{ProgressToken: "init", Progress: 1, Message: emit(c10Tag{int(initOf.Load()), 0, 1, "init", 0})})
 				}
@@ -750,6 +765,36 @@ func runC10(c *vh.Case, spec c10Spec) {
 		}
 	}
 	streams.Wait()
+	if spec.ReuseSID && stateful {
+		// every session is gone; a new one is given the first one's id and opens its standalone stream afresh
+		initOf.Store(int64(spec.Sessions)) // (what its own initialize reports is its own)
+		st, rh, _, err := ip.Do(ctx, "POST", "http://example.test/mcp", hdr(""), []byte(`{"jsonrpc":"2.0","id":"init","method":"initialize","params":{"protocolVersion":"2025-06-18","capabilities":{"roots":{}},"clientInfo":{"name":"successor","version":"0"}}}`))
+		if err == nil && st == 200 && rh.Get("Mcp-Session-Id") == sids[0] {
+			ip.Do(ctx, "POST", "http://example.test/mcp", hdr(sids[0]), []byte(`{"jsonrpc":"2.0","method":"notifications/initialized"}`))
+			gctx, cancel := context.WithCancel(ctx)
+			req, _ := http.NewRequestWithContext(gctx, "GET", "http://example.test/mcp", nil)
+			for k, v := range hdr(sids[0]) {
+				req.Header.Set(k, v)
+			}
+			req.Header.Set("Accept", "text/event-stream")
+			if resp, err := ip.RoundTrip(req); err == nil && resp.StatusCode == 200 {
+				streams.Add(1)
+				go func() {
+					defer streams.Done()
+					// the successor is session number spec.Sessions: whatever bears another session's tag is not its own
+					vhm.ReadSSE(resp.Body, func(e vhm.SSEvent) { absorb(e.Data, spec.Sessions, "standalone", 0, 0, sids[0], nil) })
+					resp.Body.Close()
+				}()
+				time.Sleep(ms(5))
+				c.Count("session_ids_handed_out_again", 1)
+			} else if resp != nil {
+				resp.Body.Close()
+			}
+			cancel()
+			ip.Do(ctx, "DELETE", "http://example.test/mcp", hdr(sids[0]), nil)
+			streams.Wait()
+		}
+	}
 	ip.Wait()
 	if !spec.Real {
 		time.Sleep(11 * time.Second)
